@@ -97,6 +97,18 @@ func (w *Worker) rtIntrinsic(name string, args []Val) (Val, bool) {
 	case "vRandConcrete":
 		w.randConcrete = args[0].(*Term).isTrue()
 		return nil, true
+	case "vCallBounded":
+		// vCallBounded(id, f, unblock): run f; if every thread blocks forever inside, that is a
+		// violation of assertion id (natively: a watchdog reports it)
+		id := w.argStr(args[0])
+		f := args[1].(*Closure)
+		old := w.deadlockID
+		w.deadlockID = id
+		w.reached = append(w.reached, id)
+		w.callFunction(f.Fn, nil, f.Bind)
+		w.deadlockID = old
+		w.traces = append(w.traces, traceTerm{"assert:" + id, ts.True})
+		return ts.True, true
 	case "vYield":
 		w.yield("vYield")
 		return nil, true
